@@ -17,6 +17,8 @@ def litOfA (N : Num D) : CExpr → Option (Val D)
   | .int k => some (.int k)
   | .bool b => some (.bool b)
   | .dbl _ m e => some (.dbl (N.ofDec m e))
+  | .un op (.int k) => if op = "-" then some (.int (-k)) else none
+  | .un op (.dbl _ m e) => if op = "-" then some (.dbl (N.neg (N.ofDec m e))) else none
   | _ => none
 
 /-- the value a declaration `ty x (lit);` leaves in `x`: the literal converted to the declared type -/
@@ -40,7 +42,13 @@ def SimpleDeclA (N : Num D) : Stmt → Prop
   | _ => False
 
 theorem evalE_litA (N : Num D) (σ : Env D) (e : CExpr) (v : Val D) (h : litOfA N e = some v) : evalE N σ e = .ok v := by
-  cases e <;> simp [litOfA] at h <;> subst h <;> simp [evalE]
+  cases e with
+  | un op a =>
+    cases a <;> simp [litOfA] at h <;> (obtain ⟨rfl, rfl⟩ := h; simp [evalE, unop])
+  | int k => simp [litOfA] at h; subst h; simp [evalE]
+  | bool b => simp [litOfA] at h; subst h; simp [evalE]
+  | dbl t m e => simp [litOfA] at h; subst h; simp [evalE]
+  | _ => simp [litOfA] at h
 
 theorem exec_declsA (C : Ctx D) : ∀ (ds : List Stmt) (s : St D),
     (∀ d ∈ ds, SimpleDeclA C.N d) → (ds.map declName).Nodup →
@@ -104,7 +112,7 @@ theorem seed_hasTy (N : Num D) (sd : Seed) : HasTy (sd.val N) sd.ty := by
   cases sd <;> simp [Seed.val, Seed.ty, HasTy]
 
 theorem seed_denote (QC : QCtx D) (ρ : LEnv D) (sd : Seed) : denote QC ρ sd.query = .ok (sd.val QC.N) := by
-  cases sd <;> simp [Seed.query, Seed.val, denote]
+  cases sd <;> simp [Seed.query, Seed.val, denote, unop]
 
 /-- what the aggregate denotes: the fold of the body over the chain's values, from the seed -/
 theorem aggQ_denote (QC : QCtx D) (g : Agg) (v : Val D)
@@ -127,10 +135,10 @@ theorem aggQ_denote (QC : QCtx D) (g : Agg) (v : Val D)
 accumulator variable and any invariant `I` of accumulator values under which one execution of the
 emitted update statement performs one step of the user-level fold. -/
 theorem agg_loop (C : Ctx D) (QC : QCtx D) (hN : QC.N = C.N) (hev : QC.ev = C.ev)
-    (B : Backend) (hB : BackendOK B) (nm : Nat → String)
+    (B : Backend) (hB : BackendBase B) (nm : Nat → String)
     (hinj : ∀ i j, nm i = nm j → i = j) (hres : ∀ j, nm j ≠ "result")
     (hcollT : ∀ name, B.collType name = QC.collType name)
-    (g : Agg) (n : Nat) (s : St D) (ws : List (Val D)) (a0 v : Val D)
+    (g : Agg) (n : Nat) (htok : TokChain B nm C g.c (n + 1)) (s : St D) (ws : List (Val D)) (a0 v : Val D)
     (hx : (s.env (nm (n + 1))).isSome = true)
     (hacc : s.env (nm n) = some (.val a0))
     (hwtS : wtSteps none g.c.steps = true) (hmt : AggTyped QC g)
@@ -156,7 +164,7 @@ theorem agg_loop (C : Ctx D) (QC : QCtx D) (hN : QC.N = C.N) (hev : QC.ev = C.ev
     rintro (⟨j, h1, _, h3⟩ | h)
     · have := hinj _ _ h3; omega
     · exact hres n h
-  obtain ⟨s', hex, hP'⟩ := compChain_correct (β := Val D) C QC hN B hB nm hinj hres g.c (n + 1) K cty l ws
+  obtain ⟨s', hex, hP'⟩ := compChain_correct_tok (β := Val D) C QC hN B hB nm hinj hres g.c (n + 1) htok K cty l ws
     (by rw [hcollT]; exact hct) (by rw [← hev]; exact hfind) hwtS (fun v hv => (hmt cty l hfind v hv).1) Pinv
     (aggStep QC g) (fun v => MethTyped v (methsAE g.body)) (fun v hv => (hmt cty l hfind v hv).2)
     (by
@@ -231,10 +239,10 @@ theorem foldG_eq_foldlM {β : Type} (g : β → Val D → Except Fault β) : ∀
 
 /-- **one aggregate, exact typing: the loop is the fold** -/
 theorem agg_fold_correct (C : Ctx D) (QC : QCtx D) (hN : QC.N = C.N) (hev : QC.ev = C.ev)
-    (B : Backend) (hB : BackendOK B) (nm : Nat → String)
+    (B : Backend) (hB : BackendBase B) (nm : Nat → String)
     (hinj : ∀ i j, nm i = nm j → i = j) (hres : ∀ j, nm j ≠ "result")
     (hcollT : ∀ name, B.collType name = QC.collType name)
-    (g : Agg) (n : Nat) (s : St D) (ws : List (Val D)) (v : Val D)
+    (g : Agg) (n : Nat) (htok : TokChain B nm C g.c (n + 1)) (s : St D) (ws : List (Val D)) (v : Val D)
     (hdone : DeclsDoneA C.N (compAgg B nm g n).decls s.env)
     (hwt : wtAgg g = true) (hmt : AggTyped QC g)
     (hchain : denote QC [("e", evtVal)] (chainQ "e" g.c) = .ok (.vec ws))
@@ -252,7 +260,7 @@ theorem agg_fold_correct (C : Ctx D) (QC : QCtx D) (hN : QC.N = C.N) (hev : QC.e
   have hx : (s.env (nm (n + 1))).isSome = true := by
     have := hdone (.decl (B.handleTy ((B.collType g.c.coll).getD "?")) (nm (n + 1)) none) (by simp [compAgg, compChain])
     simpa [DeclOKA] using this
-  obtain ⟨s', h1, h2, h3, h4, h5⟩ := agg_loop C QC hN hev B hB nm hinj hres hcollT g n s ws (g.seed.val QC.N) v hx hacc hwtS hmt hchain
+  obtain ⟨s', h1, h2, h3, h4, h5⟩ := agg_loop C QC hN hev B hB nm hinj hres hcollT g n htok s ws (g.seed.val QC.N) v hx hacc hwtS hmt hchain
     (fun a => HasTy a g.seed.ty) (seed_hasTy QC.N g.seed)
     (fun σ a a' w v0 hIa hσ hg hevw htyw hobj =>
       aggUpdate_step C QC hN B.elemPtr g (nm n) hwtB hex σ _ _ (stepConds_ty _ _ _ _) a a' w v0 hIa hσ hg hevw htyw hobj)
@@ -261,10 +269,10 @@ theorem agg_fold_correct (C : Ctx D) (QC : QCtx D) (hN : QC.N = C.N) (hev : QC.e
 
 /-- **one aggregate, exact typing** -/
 theorem agg_correct (C : Ctx D) (QC : QCtx D) (hN : QC.N = C.N) (hev : QC.ev = C.ev)
-    (B : Backend) (hB : BackendOK B) (nm : Nat → String)
+    (B : Backend) (hB : BackendBase B) (nm : Nat → String)
     (hinj : ∀ i j, nm i = nm j → i = j) (hres : ∀ j, nm j ≠ "result")
     (hcollT : ∀ name, B.collType name = QC.collType name)
-    (g : Agg) (n : Nat) (s : St D) (v : Val D)
+    (g : Agg) (n : Nat) (htok : TokChain B nm C g.c (n + 1)) (s : St D) (v : Val D)
     (hdone : DeclsDoneA C.N (compAgg B nm g n).decls s.env)
     (hwt : wtAgg g = true) (hmt : AggTyped QC g)
     (hden : denote QC [("e", evtVal)] (aggQ "e" g) = .ok v) :
@@ -272,6 +280,6 @@ theorem agg_correct (C : Ctx D) (QC : QCtx D) (hN : QC.N = C.N) (hev : QC.ev = C
       evalE C.N s'.env (compAgg B nm g n).val = .ok v ∧ HasTy v g.accTy ∧
       (∀ y, ¬ Touch nm n (compAgg B nm g n).next y → s'.env y = s.env y) := by
   obtain ⟨ws, hchain, hfold⟩ := aggQ_denote QC g v hden
-  exact agg_fold_correct C QC hN hev B hB nm hinj hres hcollT g n s ws v hdone hwt hmt hchain hfold
+  exact agg_fold_correct C QC hN hev B hB nm hinj hres hcollT g n htok s ws v hdone hwt hmt hchain hfold
 
 end FaxVerif.Gen
